@@ -204,6 +204,234 @@ def run(case):
         b.destroy()
     return None
 
+def build2(start, stop, dt, a, b_, P, Q):
+    m = Model(starttime=start, stoptime=stop, dt=dt, name="m2")
+    s = m.stock("s"); f = m.flow("f"); ca = m.constant("a"); cb = m.constant("b"); g = m.converter("g"); h = m.converter("h")
+    m.points["p"] = P
+    m.points["q"] = Q
+    ca.equation = a
+    cb.equation = b_
+    g.equation = sd.lookup(sd.time(), "p")
+    h.equation = sd.lookup(sd.time(), "q")
+    f.equation = ca + cb * 2.0 + g + h * 3.0
+    s.initial_value = 0.0
+    s.equation = f
+    return m
+
+def reference2(start, stop, dt, schedule):
+    """schedule(k) -> (a, b, P, Q) in force when grid point k is evaluated"""
+    grid = []
+    k = 0
+    while True:
+        t = float(Fraction(str(start)) + k * Fraction(str(dt)))
+        if t > stop + 1e-12: break
+        grid.append(t); k += 1
+    flows = {}; vals = {}
+    for k, t in enumerate(grid):
+        a, b_, P, Q = schedule(k)
+        flows[k] = max(0, a + 2.0 * b_ + lerp(t, P) + 3.0 * lerp(t, Q))
+        vals[t] = 0.0 if k == 0 else vals[grid[k - 1]] + dt * flows[k - 1]
+    return grid, vals
+
+MP0 = [[0.0, 0.0], [100.0, 0.0]]
+MQ0 = [[0.0, 1.0], [100.0, 1.0]]
+
+def _multi_setup(case):
+    start, stop, dt = case["start"], case["stop"], case["dt"]
+    a0, b0 = case["base"]
+    m = build2(start, stop, dt, a0, b0, MP0, MQ0)
+    b = bptk()
+    b.register_model(m)
+    sm = {"sm": {"model": m}}
+    if case.get("base_constants"):
+        sm["sm"]["base_constants"] = dict(case["base_constants"])
+    if case.get("base_points"):
+        sm["sm"]["base_points"] = {k: [list(x) for x in v] for k, v in case["base_points"].items()}
+    b.register_scenario_manager(sm)
+    scen = {}
+    for name, sc in case["scen"].items():
+        d = {}
+        if sc.get("constants"): d["constants"] = dict(sc["constants"])
+        if sc.get("points"): d["points"] = {k: [list(x) for x in v] for k, v in sc["points"].items()}
+        scen[name] = d
+    b.register_scenarios(scenario_manager="sm", scenarios=scen)
+    return m, b
+
+def _multi_values(case, name):
+    """(a, b, P, Q) of a scenario: its own values, else the manager's base values, else the model's"""
+    a0, b0 = case["base"]
+    bc = case.get("base_constants") or {}
+    bp = case.get("base_points") or {}
+    sc = case["scen"][name]
+    c = dict(a=a0, b=b0); c.update(bc); c.update(sc.get("constants") or {})
+    p = dict(p=MP0, q=MQ0); p.update(bp); p.update(sc.get("points") or {})
+    return c["a"], c["b"], p["p"], p["q"]
+
+def run_multi(case):
+    """models with TWO constants and TWO graphical functions: settings that name several keys at once, settings that name
+    other keys than the registration did, one model under two managers, a finer dt given with the session settings.
+    case: dict(start, stop, dt, base=(a, b), base_constants?, base_points?, scen={name: {constants?, points?}},
+               step=(k, who, {constants}), begin=(who, {constants?, points?}), fine=dt or None)"""
+    start, stop, dt = case["start"], case["stop"], case["dt"]
+    names = list(case["scen"])
+    # ---- A: batch, every format; the three formats report the SAME numbers ------------------------------------------------
+    m, b = _multi_setup(case)
+    try:
+        for name in names:
+            a, b_, P, Q = _multi_values(case, name)
+            grid, vals = reference2(start, stop, dt, lambda k: (a, b_, P, Q))
+            df = b.run_scenarios(scenario_managers=["sm"], scenarios=[name], equations=["s", "f"])
+            idx = [float(x) for x in df.index]
+            if idx != grid:
+                return "batch df of scenario %s covers %r, expected grid %r" % (name, idx[:10], grid[:10])
+            for t in grid:
+                if not close(df["s"][t], vals[t]):
+                    return "batch df: %s s(%r) = %r, a model built directly with a=%r b=%r p=%r q=%r gives %r" % (name, t, df["s"][t], a, b_, P, Q, vals[t])
+            dd = b.run_scenarios(scenario_managers=["sm"], scenarios=[name], equations=["s", "f"], return_format="dict")
+            js = json.loads(b.run_scenarios(scenario_managers=["sm"], scenarios=[name], equations=["s", "f"], return_format="json"))
+            for eq in ("s", "f"):
+                ser = dd["sm"][name]["equations"][eq]
+                if hasattr(ser, "to_dict"):
+                    ser = ser.to_dict()
+                sj = js["sm"][name]["equations"][eq]
+                sj = {float(k): v for k, v in sj.items()}
+                for t in grid:
+                    if t not in ser or float(ser[t]) != float(df[eq][t]):
+                        return "batch dict: %s %s(%r) = %r, the dataframe reports %r" % (name, eq, t, ser.get(t), df[eq][t])
+                    if t not in sj or float(sj[t]) != float(df[eq][t]):
+                        return "batch json: %s %s(%r) = %r, the dataframe reports %r" % (name, eq, t, sj.get(t), df[eq][t])
+    finally:
+        b.destroy()
+    # ---- B: a step whose settings change several constants at once ---------------------------------------------------------
+    if case.get("step"):
+        k_set, who, newc = case["step"]
+        m, b = _multi_setup(case)
+        try:
+            b.begin_session(scenarios=names, scenario_managers=["sm"], equations=["s", "f"], starttime=start, dt=dt)
+            grid0 = reference2(start, stop, dt, lambda k: (0, 0, MP0, MQ0))[0]
+            got = {n: {} for n in names}
+            for k, t in enumerate(grid0):
+                stg = {"sm": {who: {"constants": dict(newc)}}} if k == k_set else None
+                res = b.run_step(settings=stg)
+                for n in names:
+                    tt = [float(x) for x in res["sm"][n]["s"].keys()]
+                    if tt != [t]:
+                        return "session step %d of %s reports times %r, expected [%r]" % (k, n, tt, t)
+                    got[n][t] = list(res["sm"][n]["s"].values())[0]
+            for n in names:
+                a, b_, P, Q = _multi_values(case, n)
+                def sched(k, n=n, a=a, b_=b_, P=P, Q=Q):
+                    if n == who and k >= k_set:
+                        return (newc.get("a", a), newc.get("b", b_), P, Q)
+                    return (a, b_, P, Q)
+                grid, vals = reference2(start, stop, dt, sched)
+                for t in grid:
+                    if not close(got[n][t], vals[t]):
+                        return "session: %s s(%r) = %r, expected %r (step %d sets %r for %s)" % (n, t, got[n][t], vals[t], k_set, newc, who)
+            b.end_session()
+        finally:
+            b.destroy()
+    # ---- C: session settings that name OTHER keys than the registration: what was registered stays in force -----------------
+    if case.get("begin"):
+        who, stg = case["begin"]
+        m, b = _multi_setup(case)
+        try:
+            d = {}
+            if stg.get("constants"): d["constants"] = dict(stg["constants"])
+            if stg.get("points"): d["points"] = {k: [list(x) for x in v] for k, v in stg["points"].items()}
+            b.begin_session(scenarios=names, scenario_managers=["sm"], equations=["s"], starttime=start, dt=dt, settings={"sm": {who: d}})
+            grid0 = reference2(start, stop, dt, lambda k: (0, 0, MP0, MQ0))[0]
+            got = {n: {} for n in names}
+            for k, t in enumerate(grid0):
+                res = b.run_step()
+                for n in names:
+                    got[n][t] = list(res["sm"][n]["s"].values())[0]
+            b.end_session()
+            for n in names:
+                a, b_, P, Q = _multi_values(case, n)
+                if n == who:
+                    a = (stg.get("constants") or {}).get("a", a); b_ = (stg.get("constants") or {}).get("b", b_)
+                    P = (stg.get("points") or {}).get("p", P); Q = (stg.get("points") or {}).get("q", Q)
+                grid, vals = reference2(start, stop, dt, lambda k: (a, b_, P, Q))
+                for t in grid:
+                    if not close(got[n][t], vals[t]):
+                        return ("session begun with settings %r for %s: %s s(%r) = %r, a model built directly with a=%r b=%r p=%r q=%r gives %r"
+                                % (stg, who, n, t, got[n][t], a, b_, P, Q, vals[t]))
+        finally:
+            b.destroy()
+    # ---- D: ONE model object under two managers, each with a scenario that has no settings of its own ----------------------
+    if case.get("begin"):
+        who, stg = case["begin"]
+        a0, b0 = case["base"]
+        m = build2(start, stop, dt, a0, b0, MP0, MQ0)
+        b = bptk()
+        try:
+            b.register_scenario_manager({"smA": {"model": m}})
+            b.register_scenario_manager({"smB": {"model": m}})
+            b.register_scenarios(scenario_manager="smA", scenarios={"base": {}})
+            b.register_scenarios(scenario_manager="smB", scenarios={"base": {}})
+            d = {}
+            if stg.get("constants"): d["constants"] = dict(stg["constants"])
+            if stg.get("points"): d["points"] = {k: [list(x) for x in v] for k, v in stg["points"].items()}
+            b.begin_session(scenarios=["base"], scenario_managers=["smA"], equations=["s"], starttime=start, dt=dt, settings={"smA": {"base": d}})
+            for _ in range(3):
+                b.run_step()
+            b.end_session()
+            grid, vals = reference2(start, stop, dt, lambda k: (a0, b0, MP0, MQ0))
+            dfb = b.run_scenarios(scenario_managers=["smB"], scenarios=["base"], equations=["s"])
+            for t in grid:
+                if not close(dfb[dfb.columns[0]][t], vals[t]):
+                    return "a session on smA/base with settings %r changed smB/base (same model object): s(%r) = %r, expected %r" % (stg, t, dfb[dfb.columns[0]][t], vals[t])
+            for t in grid:
+                v = m.evaluate_equation("s", t)
+                if not close(v, vals[t]):
+                    return "a session on smA/base with settings %r changed the model the managers were registered from: s(%r) = %r, expected %r" % (stg, t, v, vals[t])
+            if m.points["p"] != MP0 or m.points["q"] != MQ0:
+                return "a session on smA/base with settings %r changed the points of the registered model: %r" % (stg, m.points)
+            b.register_scenarios(scenario_manager="smA", scenarios={"late": {}})
+            dfl = b.run_scenarios(scenario_managers=["smA"], scenarios=["late"], equations=["s"])
+            for t in grid:
+                if not close(dfl[dfl.columns[0]][t], vals[t]):
+                    return "a scenario registered after a session on smA/base with settings %r: s(%r) = %r, expected %r" % (stg, t, dfl[dfl.columns[0]][t], vals[t])
+        finally:
+            b.destroy()
+    # ---- E: a scenario that has been run is given a finer dt with the session settings --------------------------------------
+    if case.get("fine"):
+        fine = case["fine"]
+        who = names[0]
+        m, b = _multi_setup(case)
+        try:
+            b.run_scenarios(scenario_managers=["sm"], scenarios=names, equations=["s"])
+            b.begin_session(scenarios=[who], scenario_managers=["sm"], equations=["s"], settings={"sm": {who: {"runspecs": {"dt": fine}}}})
+            a, b_, P, Q = _multi_values(case, who)
+            grid, vals = reference2(start, stop, fine, lambda k: (a, b_, P, Q))
+            got = {}
+            for k, t in enumerate(grid):
+                res = b.run_step()
+                if not res or "sm" not in res:
+                    break
+                for tt, v in res["sm"][who]["s"].items():
+                    got[float(tt)] = v
+            b.end_session()
+            if sorted(got) != grid:
+                return "session with dt %r given in the settings (after a batch run with dt %r): steps report the times %r, expected %r" % (fine, dt, sorted(got)[:8], grid[:8])
+            for t in grid:
+                if not close(got[t], vals[t]):
+                    return "session with dt %r given in the settings (after a batch run with dt %r): %s s(%r) = %r, a freshly built model gives %r" % (fine, dt, who, t, got[t], vals[t])
+            for n in names[1:]:
+                a, b_, P, Q = _multi_values(case, n)
+                grid2, vals2 = reference2(start, stop, dt, lambda k: (a, b_, P, Q))
+                b.reset_scenario_cache(scenario_manager="sm", scenario=n)
+                dfo = b.run_scenarios(scenario_managers=["sm"], scenarios=[n], equations=["s"])
+                if [float(x) for x in dfo.index] != grid2:
+                    return "after %s was given dt %r, the batch run of %s covers %r" % (who, fine, n, [float(x) for x in dfo.index][:8])
+                for t in grid2:
+                    if not close(dfo[dfo.columns[0]][t], vals2[t]):
+                        return "after %s was given dt %r, %s s(%r) = %r, expected %r" % (who, fine, n, t, dfo[dfo.columns[0]][t], vals2[t])
+        finally:
+            b.destroy()
+    return None
+
 def run_two_managers(case):
     """two scenario managers (different models) that both hold a scenario called "base", one session over both; a step
     setting addressed to ONE manager's scenario affects that one from its step onwards and never the other"""
